@@ -1017,8 +1017,12 @@ class PolyhedralTermList(TermList):  # noqa: WPS338
         assert n == len(b), "n is {} and b is {}".format(n, b)
         if helper_present:
             assert n_h == len(b_help)
-        else:
-            assert len(b_help) == 0
+        elif len(b_help) > 0:
+            # context rows without any variable are constant inequalities 0 <= b_help[i] (a tactic can leave one behind):
+            # a false one makes the system unsatisfiable, the others say nothing
+            if np.any(b_help < 0):
+                raise ValueError("The constraints are unsatisfiable")
+            b_help = np.array([])
         if helper_present and m > 0:
             assert m_h == m
         if n == 0:
